@@ -123,3 +123,10 @@ CASES += [
     {"name": "reduced density matrix renormalised to unit trace when stored", "kind": "mutant", "rule": "C16-L", "edits": [
         ("quantarhei/qm/liouvillespace/heom.py", "                rhot.data[indx,:,:] = ado2[0,:,:]", "                rhot.data[indx,:,:] = ado2[0,:,:]/numpy.trace(ado2[0,:,:])", 1)]},
 ]
+
+CASES += [
+    {"name": "site operators: vibrational branch chosen by the ground state's sub-levels (seeded change of round 7)", "kind": "mutant", "rule": "C16-M", "edits": [
+        ("quantarhei/builders/aggregate_base.py", "            if self.nmono != self.Nb[1]:\n                # create a projection operator for each monomer", "            if len(self.vibindices[0]) > 1:\n                # create a projection operator for each monomer", 1)]},
+    {"name": "site operators: branch chosen by total and electronic state counts", "kind": "twin", "edits": [
+        ("quantarhei/builders/aggregate_base.py", "            if self.nmono != self.Nb[1]:\n                # create a projection operator for each monomer", "            if self.Ntot != self.Nel:\n                # create a projection operator for each monomer", 1)]},
+]
